@@ -430,7 +430,8 @@ func (c *regexpSimplifyChecker) canCombine(x, y syntax.Expr) (threshold int, ok 
 }
 
 func (c *regexpSimplifyChecker) concatLiteral(e syntax.Expr) string {
-	if e.Op == syntax.OpConcat && c.allChars(e) {
+	// An empty alternative (`|a`) is an empty concat: not a literal.
+	if e.Op == syntax.OpConcat && len(e.Args) != 0 && c.allChars(e) {
 		return e.Value
 	}
 	return ""
@@ -471,7 +472,7 @@ func (c *regexpSimplifyChecker) factorPrefixSuffix(alt syntax.Expr) bool {
 	}
 	x := c.concatLiteral(alt.Args[0])
 	y := c.concatLiteral(alt.Args[1])
-	if x == y {
+	if x == "" || y == "" || x == y {
 		return false // Reject non-literals and identical strings early
 	}
 
